@@ -235,6 +235,8 @@ def base_sentences(rng):
         ('part2of2', [b'!AIVDM', b'2', b'2', b'1', b'A', P2B, b'2']),
         ('fill5', [b'!AIVDM', b'1', b'1', b'', b'A', b'H52KMe', b'5']),
         ('extra-field', [b'!AIVDM', b'1', b'1', b'', b'B', P1, b'x', b'0']),
+        ('empty-payload', [b'!AIVDM', b'1', b'1', b'', b'A', b'', b'0']),          # decode(): MissingPayloadException
+        ('unknown-id', [b'!AIVDM', b'1', b'1', b'', b'A', b'h0000', b'0']),        # decode(): UnknownMessageException
         ('gatehouse', [b'$PGHP', b'1', b'2020', b'12', b'31', b'23', b'59', b'58', b'239', b'0', b'0', b'0', b'1', b'2C']),
         ('gatehouse-lower', [b'$PGhp', b'1', b'2004', b'2', b'29', b'0', b'0', b'0', b'0', b'219', b'', b'219000001', b'0',
                              b'']),
